@@ -276,7 +276,22 @@ let h_pipeline args = match args with
     [L [A "model"; res]]
   | _ -> bad "pipeline args"
 
+(* hw_loading.read_processor: description + ISA table -> processor + instruction set *)
+let h_hwload args = match args with
+  | d :: spec :: _ ->
+    let d = dec_desc d in
+    let spec = dec_list (fun x -> match x with L [i; c] -> (dec_cstr i, dec_cstr c) | _ -> bad "isa entry") spec in
+    let res = match load_proc_desc d with
+      | LoadErr e -> L [A "err"; enc_load_err e]
+      | LoadOk p ->
+        (match load_isa spec (get_abilities p) with
+         | IsaErr _ as r -> enc_isa_res r
+         | IsaOk isa -> L [A "ok"; enc_proc p; enc_list (fun (k, v) -> L [enc_cstr k; enc_cstr v]) isa]) in
+    [L [A "model"; res]]
+  | _ -> bad "hwload args"
+
 let handlers : (Stdlib.String.t * (sx list -> sx list)) list = [
+  ("hwload", h_hwload);
   ("sim", h_sim); ("loader", h_loader); ("mkproc", h_mkproc); ("icase", h_icase); ("bag", h_bag);
   ("regq", h_regq); ("parse", h_parse); ("isa", h_isa); ("abilities", h_abilities);
   ("table", h_table); ("pipeline", h_pipeline);
